@@ -67,6 +67,7 @@ class BlobTable:
     """Dictionary view (hash -> status) of the real `blob` table, for the harness' start states and obligations."""
 
     def __init__(self, storage):
+        self.storage = storage
         self.conn = storage.db.conn
 
     def get(self, h, default=None):
